@@ -1,7 +1,8 @@
 import TaskModel.Output.AcceptLemmas
-/-! Completeness of the multi-producer acceptors of `Output.Accept`: together with `acceptsPW_sound` /
-`acceptsGW_sound` they accept EXACTLY what the writer emits for some interleaving of the producers' chunk
-sequences, so a `reject` of the driver is a disagreement with every schedule, not an artefact of the search. -/
+/-! Completeness of the group multi-producer acceptor of `Output.Accept`: together with `acceptsGW_sound` it accepts
+EXACTLY what the writer emits for some interleaving of the producers' chunk sequences, so a `reject` of the driver is
+a disagreement with every schedule, not an artefact of the search.  (For `acceptsPW` only soundness is proved: its
+pruning `bufferFits` holds on every real run, but that is argued in its comment, not proved.) -/
 namespace TaskModel.Output
 
 theorem not_all_empty_mid {α : Type} (pre : List (List α)) (x : α) (t : List α) (post : List (List α)) :
@@ -38,34 +39,6 @@ theorem shuffle_mem_rev {α : Type} (seqs : List (List α)) (out : List α) (h :
       · simp
       · exact List.mem_cons_of_mem _ (ih s (by simp) c hc)
     · exact List.mem_cons_of_mem _ (ih t (by simp [ht]) c hc)
-
-/-- the search finds every interleaving: what the writer emits for ANY order in which the producers' chunks reach
-it is accepted -/
-theorem acceptsPW_complete (pre : Bytes) (prods : List (List Bytes)) (s : List Bytes) (h : Shuffle prods s) :
-    ∀ (n : Nat) (w : PW), s.length < n → acceptsPW pre n w prods ((w.run s).map (lineBlock pre)) = true := by
-  induction h with
-  | done seqs hs =>
-    intro n w hn
-    cases n with
-    | zero => omega
-    | succ n =>
-      unfold acceptsPW
-      rw [if_pos ((all_empty_iff seqs).mpr hs)]
-      simp [PW.run]
-  | step pr x t post out _ ih =>
-    intro n w hn
-    cases n with
-    | zero => omega
-    | succ n =>
-      unfold acceptsPW
-      rw [if_neg (by rw [not_all_empty_mid]; simp)]
-      simp only [List.any_eq_true, Bool.and_eq_true]
-      refine ⟨(x, pr ++ [t] ++ post), picks_complete pr x t post, ?_, ?_⟩
-      · simp only [PW.run, List.map_append]
-        exact List.isPrefixOf_iff_prefix.mpr (List.prefix_append _ _)
-      · simp only [PW.run, List.map_append, List.length_map, List.drop_left']
-        have := ih n (w.write x).1 (by simp at hn; omega)
-        simpa using this
 
 theorem interleavesBytes_complete (prods : List (List Bytes)) (s : List Bytes) (h : Shuffle prods s) :
     ∀ (n : Nat), s.length < n → interleavesBytes n prods s.flatten = true := by
